@@ -58,7 +58,9 @@ package geojson
 //@     invariant fresh(pathsList) && len(pathsList) == len(polys) && #2 <= len(polys) && (forall k int :: 0 <= k && k < #2 ==> pathsList[k] == polys[k])
 
 // ---- decoding ----
-//@ pred numArray(j interface{}) = typeof(j) == []interface{} && (forall i int :: 0 <= i && i < len(j.([]interface{})) ==> typeof(j.([]interface{})[i]) == float64)
+// numArray: an array of FINITE numbers (JSON has no NaN/Infinity; the encoder reports them as errors,
+// so the decoder of Geometry values must not let them in)
+//@ opaque pred numArray(j interface{}) = typeof(j) == []interface{} && (forall i int :: 0 <= i && i < len(j.([]interface{})) ==> typeof(j.([]interface{})[i]) == float64 && !isNaN(j.([]interface{})[i].(float64)) && !isInf(j.([]interface{})[i].(float64)))
 
 //@ pred jIs1(j interface{}, c []float64) = numArray(j) && len(j.([]interface{})) == len(c) && (forall k int :: 0 <= k && k < len(c) ==> biteq(c[k], j.([]interface{})[k].(float64)))
 //@ pred numArray2(j interface{}) = typeof(j) == []interface{} && (forall i int :: 0 <= i && i < len(j.([]interface{})) ==> numArray(j.([]interface{})[i]))
@@ -81,7 +83,7 @@ package geojson
 //@   ensures [values] fresh(result) && jIs1(jsonCoordinates, result)
 //@   modifies nothing
 //@   loop 1 `for i, element := range array`
-//@     invariant fresh(coordinates) && len(coordinates) == len(array) && #1 <= len(array) && (forall k int :: 0 <= k && k < #1 ==> typeof(array[k]) == float64 && biteq(coordinates[k], array[k].(float64)))
+//@     invariant fresh(coordinates) && len(coordinates) == len(array) && #1 <= len(array) && (forall k int :: 0 <= k && k < #1 ==> typeof(array[k]) == float64 && biteq(coordinates[k], array[k].(float64)) && !isNaN(array[k].(float64)) && !isInf(array[k].(float64)))
 
 //@ func decodeCoordinates2
 //@   prop C06, C07
